@@ -209,7 +209,7 @@ pp_crypto_hash_gost3411_sum_256 (puint32	a[8],
 	for (i = 0; i < 8; ++i) {
 		old = a[i];
 		a[i] = a[i] + b[i] + (carry ? 1 : 0);
-		carry = (a[i] < old || a[i] < b[i]) ? TRUE : FALSE;
+		carry = (a[i] < old || (carry && a[i] == old)) ? TRUE : FALSE;
 	}
 }
 
